@@ -14,6 +14,8 @@ import os
 import sys
 import time
 
+import z3
+
 from engine import common, po
 from harness import sessions
 
@@ -72,6 +74,21 @@ def analyse(name, seed=0):
     if res == 'sat':
         sch, cut = P.schedule_from(m)
         model_info = dict(schedule=sch, cut=P.describe_cut(cut))
+    # operations that do not wait (get_nowait, timed get, put on a full bounded queue): can one of them find its queue
+    # empty (full) in some reachable state?  Then the real call raises and the thread leaves its recorded path.
+    out['nonblocking_ops'] = len(P.nonblocking_ops())
+    if model_info is None and P.nonblocking_ops():
+        resn, mn, dtn = P.check(P.nonblock_fail_query())
+        out['nonblock_fail'] = resn
+        out['stats']['nonblock_s'] = round(dtn, 2)
+        if resn == 'sat':
+            sch, cut = P.schedule_from(mn)
+            failing = [o for o in P.nonblocking_ops() if cut[o['thread']] == o['pos']
+                       and not z3.is_true(mn.eval(P.enabled(o, at=None), model_completion=True))]
+            sch = sch + [(o['thread'], o['idx']) for o in failing[:1]]
+            model_info = dict(schedule=sch, cut=P.describe_cut(cut),
+                              found='a non-blocking queue operation runs while its queue is empty (full): ' +
+                                    ', '.join(f"{o['thread']}#{o['idx']} {o['kind']} {o['obj']}" for o in failing[:1]))
     last_put = [o for o in r['traces']['main'] if o['kind'] == 'q_put'][-1]
     P2 = po.PO(r['traces'], drop=('main', last_put['idx']))
     res2, _, dt2 = P2.check(P2.deadlock_query())
@@ -90,7 +107,7 @@ def _case(name):
     common.setup_path()
     res = common.CaseResult(name)
     out, r, model = analyse(name, common.SEED)
-    res.stats = dict(paths=1, queries=3, solver_s=sum(v for k, v in out.get('stats', {}).items() if k != 'record_s'),
+    res.stats = dict(paths=1, queries=3 + (1 if out.get('nonblock_fail') else 0), solver_s=sum(v for k, v in out.get('stats', {}).items() if k != 'record_s'),
                      sat=0, unsat=0, unknown=0, steps=out.get('recorded_ops', 0))
     res.samples = [{'session': name, 'threads': out.get('threads'), 'deadlock_query': out.get('deadlock'),
                     'completion_twin': out.get('completion_twin'), 'seeded_bug_twin': out.get('seeded_bug_twin'),
@@ -115,12 +132,13 @@ def _case(name):
         res.status = 'inconclusive'
         res.detail = f'vacuity twins failed: completion {out["completion_twin"]}, seeded bug {out["seeded_bug_twin"]}'
         return res
-    if out['deadlock'] == 'sat':
-        res.cex.append({'kind': 'schedule', 'session': name, 'seed': common.SEED, 'schedule': model['schedule'], 'cut': model['cut']})
+    if out['deadlock'] == 'sat' or out.get('nonblock_fail') == 'sat':
+        res.cex.append({'kind': 'schedule', 'session': name, 'seed': common.SEED, 'schedule': model['schedule'], 'cut': model['cut'],
+                        'found': model.get('found', 'deadlock')})
         res.status = 'cex'
-    elif out['deadlock'] != 'unsat':
+    elif out['deadlock'] != 'unsat' or out.get('nonblock_fail', 'unsat') != 'unsat':
         res.status = 'inconclusive'
-        res.detail = 'deadlock query: ' + out['deadlock']
+        res.detail = f'deadlock query: {out["deadlock"]}; non-blocking operations query: {out.get("nonblock_fail")}'
     return res
 
 
